@@ -5,10 +5,10 @@
    manager (None = CacheManager, Some t = TimedCacheManager(timeout=t)), local or pool jobs per
    context, the persist positions, and the histories (collect / count / take n / first on ANY node,
    unpersist of any node, clock advances, explicit gc) -- see Model/Cache.v and Model/CacheSpec.v. *)
-From Coq Require Import ZArith List Bool.
+From Coq Require Import ZArith List Bool Lia.
 Require Import PV.Model.Cache PV.Model.CacheSpec.
 Require Import PV.Proofs.CacheWorld PV.Proofs.CacheRecompute2 PV.Proofs.CacheRecompute3 PV.Proofs.CacheTimed
-  PV.Proofs.CacheUnpersist PV.Proofs.CacheFinding PV.Proofs.CacheHistory.
+  PV.Proofs.CacheUnpersist PV.Proofs.CacheHistory.
 Import ListNotations.
 Open Scope Z_scope.
 
@@ -80,47 +80,58 @@ Theorem C05_no_recompute_history_plain : forall (A : Type) (w : world A) st1 h2 
   user_calls_of (map fst pre) i
     (snd (fst (step w (final_state w st1 h2) (Act k (length pre + 1 + jd) ak)))) = [].
 Proof. exact no_recompute_history_plain. Qed.
-(* TimedCacheManager: the full statement ("cached and younger than the timeout => not recomputed") is
-   FALSE of the code as it is (finding: delete() leaves the stamp in _time_added) *)
-Definition C05_no_recompute_full : Prop := no_recompute_full.
-Theorem C05_no_recompute_refuted : ~ C05_no_recompute_full.
-Proof. exact no_recompute_refuted. Qed.
-(* what holds: the same with the extra hypothesis that _time_added has no second stamp for any key
-   (true as long as a persisted dataset is not used again after its unpersist()) *)
-Theorem C05_no_recompute_timed_partial : forall (A : Type) (w : world A) tos h k P cx m to pre rid post jd ak i d t,
+(* TimedCacheManager (code after a58d69d), every reachable state of every history with a monotone clock:
+   cached and younger than the timeout => not recomputed.  (Before a58d69d this was refuted: delete() left
+   a stale stamp in _time_added; found by this check, replay kept in corpus/C05/stale_stamp.json.) *)
+Theorem C05_no_recompute_timed : forall (A : Type) (w : world A) tos h k P cx m to pre rid post jd ak i d t,
   built w -> clock_monotone h ->
   let st := final_state w (init_state A tos) h in
   nth_error (w_pipes w) k = Some P -> p_nodes P = pre ++ (rid, SPersist) :: post ->
   nth_error (w_ctxs w) (p_ctx P) = Some cx -> nth_error (s_mgrs st) (c_mgr cx) = Some m ->
   m_timeout m = Some to ->
-  NoDup (map fst (m_times m)) ->
   In ((rid, i), (d, t)) (m_entries m) -> t > s_now st - to ->
   user_calls_of (map fst pre) i (snd (fst (step w st (Act k (length pre + 1 + jd) ak)))) = [].
-Proof. exact no_recompute_step_timed_partial. Qed.
+Proof. exact no_recompute_step_timed. Qed.
+(* both classes in one statement: in every reachable state, an entry that is present (and, under a timed
+   manager, younger than the timeout) is not recomputed by any action on its dataset or a descendant *)
+Theorem C05_no_recompute : forall (A : Type) (w : world A) tos h k P cx m pre rid post jd ak i d t,
+  built w -> clock_monotone h ->
+  let st := final_state w (init_state A tos) h in
+  nth_error (w_pipes w) k = Some P -> p_nodes P = pre ++ (rid, SPersist) :: post ->
+  nth_error (w_ctxs w) (p_ctx P) = Some cx -> nth_error (s_mgrs st) (c_mgr cx) = Some m ->
+  In ((rid, i), (d, t)) (m_entries m) ->
+  (forall to, m_timeout m = Some to -> t > s_now st - to) ->
+  user_calls_of (map fst pre) i (snd (fst (step w st (Act k (length pre + 1 + jd) ak)))) = [].
+Proof. exact no_recompute_step_any. Qed.
 
 (* ---- timed manager: gc is complete ---- *)
-(* the bookkeeping invariant (sorted, bounded by the clock, a stamp for every entry) holds in every
-   reachable state: preserved by add, by the repaired join (entries from pool workers are stamped),
-   by gc, delete and by the passing of time *)
+(* the bookkeeping invariant (_time_added sorted, bounded by the clock, a stamp for every entry and an entry
+   for every stamp, one entry per key) holds in every reachable state: preserved by add, by the repaired
+   join (entries from pool workers are stamped), by gc, by the repaired delete and by the passing of time *)
 Theorem C05_timed_invariant : forall (A : Type) (w : world A) tos h mi m to,
-  clock_monotone h ->
+  built w -> clock_monotone h ->
   let st := final_state w (init_state A tos) h in
   nth_error (s_mgrs st) mi = Some m -> m_timeout m = Some to -> timed_inv (s_now st) m.
 Proof. exact timed_invariant_reachable. Qed.
 Theorem C05_join_keeps_invariant : forall (A : Type) now new (m : mgr A),
-  timed_inv now m -> m_timeout m <> None -> timed_inv now (m_join now new m).
+  timed_inv now m -> m_timeout m <> None ->
+  NoDup (map fst new) -> (forall kv, In kv new -> ~ has_key (fst kv) m) ->
+  timed_inv now (m_join now new m).
 Proof. exact timed_inv_join. Qed.
 (* after gc() no entry added at or before now - timeout is left, in every reachable state *)
 Theorem C05_gc_complete : forall (A : Type) (w : world A) tos h mi m to,
-  clock_monotone h ->
+  built w -> clock_monotone h ->
   let st := final_state w (init_state A tos) h in
   nth_error (s_mgrs st) mi = Some m -> m_timeout m = Some to ->
   forall k d t, In (k, (d, t)) (m_entries (m_gc (s_now st) m)) -> t > s_now st - to.
 Proof. exact gc_complete. Qed.
-(* the converse ("gc removes ONLY expired entries") is not in the property text; it is false (same finding) *)
-Definition C05_gc_only_expired_full : Prop := gc_only_expired_full.
-Theorem C05_gc_only_expired_refuted : ~ C05_gc_only_expired_full.
-Proof. exact gc_only_expired_refuted. Qed.
+(* ... and gc() removes nothing younger than the timeout (not demanded by the text; true since a58d69d) *)
+Theorem C05_gc_only_expired : forall (A : Type) (w : world A) tos h mi m to,
+  built w -> clock_monotone h ->
+  let st := final_state w (init_state A tos) h in
+  nth_error (s_mgrs st) mi = Some m -> m_timeout m = Some to ->
+  forall k d t, In (k, (d, t)) (m_entries m) -> t > s_now st - to -> has_key k (m_gc (s_now st) m).
+Proof. exact gc_only_expired. Qed.
 
 (* ---- unpersist ---- *)
 (* in every reachable state unpersist() of a persisted node returns its parent (node j), and an action
@@ -158,11 +169,22 @@ Proof.
   split; [exists 0, [(0%nat, [[1; 2]; [3; 4]], [SMap (fun x => x * x); SPersist])]; reflexivity|].
   repeat constructor. exists (Ctx 0 false). split; [reflexivity | simpl; auto].
 Qed.
-(* the hypotheses of the timed theorems are met by a reachable state with entries and stamps *)
+(* the former stale-stamp replay (timeout 10; collect, unpersist, use again at 5, at 10 collect a persisted
+   descendant): the hypotheses of the timed theorems are met by this reachable state, and the last action
+   now makes no call of the function of dataset 2 for either partition *)
+Definition reuse_world : world Z :=
+  World [Ctx 0 false]
+        (fst (alloc_all 0 [(0%nat, [[1; 2]; [3; 4]], [SMap (fun x => x + 1); SPersist; SMap (fun x => x * 2); SPersist])])).
+Definition reuse_history : list action :=
+  [Act 0 2 ACollect; Unpersist 0 2; Advance 5; Act 0 2 ACollect; Advance 5].
 Example timed_nonvacuous :
-  clock_monotone wit_history /\ s_now wit_state = 10 /\ nth_error (s_mgrs wit_state) 0 = Some wit_mgr /\
-  m_entries (m_gc 10 wit_mgr) = [].
-Proof. split; [exact wit_monotone | split; [apply wit_reached | split; [apply wit_reached | exact wit_gc_deletes]]]. Qed.
+  let st := final_state reuse_world (init_state Z [Some 10]) reuse_history in
+  clock_monotone reuse_history /\ s_now st = 10 /\
+  map (fun m => (map (fun e => (fst e, snd (snd e))) (m_entries m), m_times m)) (s_mgrs st)
+    = [([((3, 0), 5); ((3, 1), 5)], [((3, 0), 5); ((3, 1), 5)])] /\
+  user_calls_of [2] 0 (snd (fst (step reuse_world st (Act 0 4 ACollect)))) = [] /\
+  user_calls_of [2] 1 (snd (fst (step reuse_world st (Act 0 4 ACollect)))) = [].
+Proof. vm_compute. repeat split; auto; discriminate. Qed.
 (* ids that are NOT fresh (what per-context counters would give): dataset 2 of a second pipeline reads
    the entry of dataset 2 of the first -- the hypothesis of C05_transparent_from_fresh_ids is needed *)
 Example cross_read_with_colliding_ids :
